@@ -1354,6 +1354,26 @@ class Interp:
             self.where = saved
 
     def e_JoinedStr(self, e, fr):
+        fm = self.models.get("fstring")
+        if fm is not None:
+            # a contract that gives formatted text a meaning (C15: `<number> <unit>`) receives the pieces: literal text and the unformatted
+            # symbolic values; a format specification / conversion on a symbolic value is outside such a model (unsupported, never guessed)
+            raw, symbolic = [], False
+            for v in e.values:
+                if isinstance(v, ast.Constant):
+                    raw.append(str(v.value))
+                    continue
+                val = self.ev(v.value, fr)
+                if has_sym(val):
+                    if v.format_spec is not None or v.conversion not in (-1, ord("s")):
+                        raise Unsupported("format specification / conversion applied to a symbolic value in an f-string")
+                    raw.append(val)
+                    symbolic = True
+                else:
+                    raw.append(self.e_FormattedValue(v, fr))
+            if symbolic:
+                return fm(raw)
+            return "".join(raw)
         parts = []
         for v in e.values:
             if isinstance(v, ast.Constant):
